@@ -21,6 +21,8 @@ ids are `<type>/<namespace rank>/<value>`.
   `idx k q`                    => `[ids]`          per-index stream in the merged world; checked ascending
   `find id` `has id` `loc id` `prefs id` `pts id` `each` `search q`   => `merged ## union`
   `hasid id`                   => `true|false`     FeaturesByID.HasFeatureWithID
+  `istart cap=n` `imerge k` `iidx k q` `ifind id` `ihas id` `ieach` `isearch q`   an incremental history: the world after
+                                             each merge is the model's append of that file's blocks; same answers expected
   `reset`
   `build`                      => `builder-crash`  the child died inside the builder (accepted); `crash` / `hang` (rejected)
 -/
@@ -32,6 +34,9 @@ abbrev Fl := File String String String
 
 structure FileSt where
   table : List Nat
+  overlay : Bool := false
+  /-- incremental history: the stream of this file's index for a query in the world merged so far (`none`: it panicked) -/
+  istreams : List (String × Option (List ID)) := []
   blocks : Array Blk := #[]
   streams : List (String × List ID) := []
 
@@ -56,6 +61,9 @@ structure St where
   order : List Nat := []
   world : List Blk := []
   chain : List Blk := []
+  /-- incremental history: files merged so far, and their blocks -/
+  incFiles : List Nat := []
+  inc : List Blk := []
   srcs : List Src := []
 
 def renderID (i : ID) : String := s!"{i.typ}/{i.ns}/{i.val}"
@@ -178,6 +186,64 @@ def step (s : St) (op impl : String) : St × Verdict :=
     if impl == "builder-crash" then
       (s, if pointMemberWithoutBlock s.srcs then .ok else .propfail "build-crash")
     else (s, .bad)
+  | "istart" :: _ =>
+    ({ s with incFiles := [], inc := [], files := s.files.map (fun f => { f with istreams := [] }) }, .ok)
+  | ["imerge", k] =>
+    match k.toNat? with
+    | some k =>
+      match s.files[k]? with
+      | some f =>
+        -- Merge appends the file's blocks (and index) to the world as it is
+        ({ s with incFiles := s.incFiles ++ [k], inc := s.inc ++ f.blocks.toList,
+                  files := s.files.map (fun f => { f with istreams := [] }) },
+         if impl == "ok" then .ok else .diff "ok")
+      | none => (s, .bad)
+    | none => (s, .bad)
+  | ["iidx", k, q] =>
+    match k.toNat? with
+    | some k =>
+      match s.files[k]? with
+      | some f =>
+        if impl == "panic" then
+          -- an overlay's index cannot resolve base points while a file it was built against is still missing
+          let s' := { s with files := s.files.set! k { f with istreams := (q, none) :: f.istreams } }
+          -- (any stream can meet such a path: a duplicated id resolves to the first merged file's version)
+          let pending := s.incFiles.any fun o =>
+            (match s.files[o]? with | some fo => fo.overlay | none => false) &&
+              (List.range o).any (fun j => !s.incFiles.contains j)
+          if pending then (s', .ok) else (s', .diff "[…]")
+        else
+          match parseIDs impl with
+          | some ids =>
+            let s' := { s with files := s.files.set! k { f with istreams := (q, some ids) :: f.istreams } }
+            if sortedIDs ids then (s', .ok) else (s', .propfail "index-stream-ascending")
+          | none => (s, .bad)
+      | none => (s, .bad)
+    | none => (s, .bad)
+  | ["ifind", id] =>
+    match parseID id with
+    | some id =>
+      -- `merged_lookup` after every step: the model's answer is the property's (first hit over the files merged so far)
+      let model := (find s.inc id).getD "nil"
+      (s, if impl == model then .ok else .propfail ("incremental-lookup expected=" ++ model))
+    | none => (s, .bad)
+  | ["ihas", id] =>
+    match parseID id with
+    | some id =>
+      let model := toString (has s.inc id)
+      (s, if impl == model then .ok else .propfail ("incremental-exists expected=" ++ model))
+    | none => (s, .bad)
+  | ["ieach"] =>
+    (s, judge impl "-" (match each s.inc with | some ids => renderIDs ids | none => "panic") "incremental-each")
+  | ["isearch", q] =>
+    let fs := s.incFiles.filterMap (fun k => s.files[k]?)
+    let streams := fs.map (fun f => f.istreams.lookup q)
+    if streams.any (·.isNone) then (s, .bad)
+    else if streams.any (· == some none) then (s, judge impl "-" "panic" "incremental-search")
+    else
+      let cs := streams.filterMap (fun o => o.join)
+      -- every id comes with its feature (`!nil` marks an id whose lookup failed)
+      (s, judge impl "-" (renderIDs (merged cs)) "incremental-search")
   | "chain" :: _ =>
     match (sdrop op 6).splitOn "] [" with
     | [a, b] =>
@@ -206,7 +272,7 @@ def step (s : St) (op impl : String) : St × Verdict :=
       match parseNats t with
       | some table =>
         if k == s.files.size && table.all (· < s.nss) && table.eraseDups.length == table.length then
-          ({ s with files := s.files.push { table := table } }, .ok)
+          ({ s with files := s.files.push { table := table, overlay := (words op)[2]? == some "overlay" } }, .ok)
         else (s, .bad)
       | none => (s, .bad)
     | _, _ => (s, .bad)
